@@ -3,6 +3,7 @@ package conc
 import (
 	"context"
 	"fmt"
+	"runtime"
 	"sync"
 	"sync/atomic"
 	"time"
@@ -132,4 +133,137 @@ func runC11Fresh(seed uint64) (violation string, reads int64) {
 		}
 	}
 	return "", rd.Load()
+}
+
+// ---- C11: a reloaded value is fresh from the moment it is visible -------------------------------
+//
+// Entries become due for refresh (the clock is moved once, then stands still), readers use Get/BulkGet,
+// the refresh policy gives a reloaded value one hour and takes its time doing so (a slow RefreshAfterReload
+// is the control point: it widens whatever window there is between the publication of the reloaded value
+// and the moment its refresh time is in place). Every value the loader returns is unique. Reload/BulkReload
+// must never be handed a value that a reload produced: such a value is fresh for an hour on a clock that does
+// not move, and "reads of fresh entries trigger nothing". At quiescence every key holds a reloaded value
+// with its refresh time an hour ahead.
+type swapRefresh struct{ seed uint64 }
+
+func (swapRefresh) RefreshAfterCreate(otter.Entry[int, int]) time.Duration      { return 10 }
+func (swapRefresh) RefreshAfterUpdate(otter.Entry[int, int], int) time.Duration { return 10 }
+func (s swapRefresh) RefreshAfterReload(e otter.Entry[int, int], old int) time.Duration {
+	switch h := core.Mix(s.seed ^ uint64(e.Value)); h % 4 {
+	case 0:
+	case 1:
+		for i := 0; i < int(h>>20%6)+1; i++ {
+			runtime.Gosched()
+		}
+	default:
+		time.Sleep(time.Duration(h>>20%60+5) * time.Microsecond)
+	}
+	return time.Hour
+}
+func (swapRefresh) RefreshAfterReloadFailure(otter.Entry[int, int], error) time.Duration {
+	return time.Hour
+}
+
+type swapLoader struct {
+	next     atomic.Int64
+	mu       sync.Mutex
+	produced map[int]bool
+	bad      string
+	reloads  int64
+}
+
+func (l *swapLoader) reload(key, old int) int {
+	v := int(5_000_000 + l.next.Add(1))
+	l.mu.Lock()
+	l.reloads++
+	if l.produced[old] && l.bad == "" {
+		l.bad = fmt.Sprintf("Reload of key %d was handed the value %d, which an earlier reload had produced: its refresh time lies one hour ahead on a clock that does not move, so no read of it may trigger a reload (was it visible before its refresh time was in place?)", key, old)
+	}
+	l.produced[v] = true
+	l.mu.Unlock()
+	return v
+}
+func (l *swapLoader) Load(ctx context.Context, key int) (int, error) { return -1, nil }
+func (l *swapLoader) Reload(ctx context.Context, key, old int) (int, error) {
+	return l.reload(key, old), nil
+}
+func (l *swapLoader) BulkLoad(ctx context.Context, keys []int) (map[int]int, error) {
+	return map[int]int{}, nil
+}
+func (l *swapLoader) BulkReload(ctx context.Context, keys, olds []int) (map[int]int, error) {
+	m := map[int]int{}
+	for i, k := range keys {
+		m[k] = l.reload(k, olds[i])
+	}
+	return m, nil
+}
+
+func runC11Swap(seed uint64) (violation string, reloads int64) {
+	r := core.NewRng(seed)
+	clk := &phaseClock{tick: make(chan time.Time)}
+	clk.now.Store(1_000_000_000)
+	var wg sync.WaitGroup
+	o := &otter.Options[int, int]{
+		Clock:             clk,
+		RefreshCalculator: swapRefresh{seed},
+		Logger:            &otter.NoopLogger{},
+		Executor: func(fn func()) {
+			wg.Add(1)
+			go func() {
+				defer wg.Done()
+				fn()
+			}()
+		},
+	}
+	switch r.Intn(3) {
+	case 0:
+		o.MaximumSize = 1000
+	case 1:
+		o.ExpiryCalculator = otter.ExpiryWriting[int, int](24 * time.Hour)
+	}
+	c, err := otter.New(o)
+	if err != nil {
+		return "cannot build: " + err.Error(), 0
+	}
+	defer c.StopAllGoroutines()
+	keys := 1 + r.Intn(3)
+	for k := 0; k < keys; k++ {
+		c.Set(k, 1+k)
+	}
+	clk.now.Add(20) // every entry is due now; the clock does not move again
+	ld := &swapLoader{produced: map[int]bool{}}
+	ctx := context.Background()
+	var workers sync.WaitGroup
+	for g := 0; g < 2+r.Intn(5); g++ {
+		workers.Add(1)
+		go func(g int) {
+			defer workers.Done()
+			rng := core.NewRng(core.Derive(seed, 3, uint64(g)))
+			for i := 0; i < 150+rng.Intn(300); i++ {
+				if rng.Chance(1, 4) {
+					c.BulkGet(ctx, []int{rng.Intn(keys), rng.Intn(keys)}, ld)
+				} else {
+					c.Get(ctx, rng.Intn(keys), ld)
+				}
+				progress.Add(1)
+			}
+		}(g)
+	}
+	workers.Wait()
+	wg.Wait()
+	ld.mu.Lock()
+	defer ld.mu.Unlock()
+	if ld.bad != "" {
+		return ld.bad, ld.reloads
+	}
+	for k := 0; k < keys; k++ {
+		e, ok := c.GetEntryQuietly(k)
+		if !ok || !ld.produced[e.Value] {
+			return fmt.Sprintf("key %d was due for refresh and was read hundreds of times, but holds (%d, present=%v) at quiescence: not a reloaded value", k, e.Value, ok), ld.reloads
+		}
+		if want := clk.now.Load() + int64(time.Hour); e.RefreshableAtNano != want {
+			return fmt.Sprintf("key %d holds the reloaded value %d with refresh time %d, expected %d (one hour after the reload on a clock that does not move)", k, e.Value, e.RefreshableAtNano, want), ld.reloads
+		}
+	}
+	return "", ld.reloads
 }
